@@ -26,6 +26,9 @@ func vfC12Desc(n, maxTok int, zoned bool, nzones int, now int64, symTimes bool) 
 		zone := ""
 		if zoned {
 			zone = vfZones[vfChoice("zone", nzones)]
+		} else if nzones < 0 {
+			// zone-awareness off, but the instances still carry zone labels
+			zone = vfZones[i%2]
 		}
 		nt := 1 + vfChoice("ntok", maxTok)
 		reg, rots := now-1000, int64(0)
@@ -56,6 +59,8 @@ func HarnessC12_Basic() {
 	nz := 1
 	if zoneAware {
 		nz = 1 + vfChoice("nzones", vfParam("zones", 2))
+	} else if vfChoice("labels", 2) == 1 {
+		nz = -1 // zone-awareness off with labelled instances
 	}
 	d := vfC12Desc(n, vfParam("tok", 1), zoneAware, nz, vfEpoch, false)
 	r := vfMkRing(d, 2, zoneAware, time.Minute)
@@ -83,7 +88,11 @@ func HarnessC12_Basic() {
 	// right-sized per zone
 	zones := map[string]bool{}
 	for _, ing := range d.Ingesters {
-		zones[ing.Zone] = true
+		if zoneAware {
+			zones[ing.Zone] = true
+		} else {
+			zones["*"] = true // zone labels are ignored: one pool
+		}
 	}
 	perZone := size
 	if zoneAware {
@@ -92,7 +101,7 @@ func HarnessC12_Basic() {
 	for z := range zones {
 		eligible, got := 0, 0
 		for id, ing := range d.Ingesters {
-			if ing.Zone != z {
+			if zoneAware && ing.Zone != z {
 				continue
 			}
 			if !ing.ReadOnly {
